@@ -1,6 +1,6 @@
 SPECIFICATION TSpec
 CONSTANT Slot = {1,2,3,4,5,6}
-CONSTANT OomMode = FALSE
+CONSTANT OomMode = TRUE
 CONSTRAINT Progress
 POSTCONDITION Accepted
 CHECK_DEADLOCK FALSE
